@@ -330,7 +330,8 @@ class _ReadSourceGenerator:
             size += field_type.size
 
         fmt = _optimize_struct_fmt(info)
-        if fmt == "x" or (len(fmt) == 2 and fmt[1] == "x"):
+        if (fmt == "x" or (len(fmt) == 2 and fmt[1] == "x")) and all(char == "x" for _, _, char in info):
+            # Only padding and byte based types that are sliced directly out of the buffer, nothing to unpack
             unpack = ""
         else:
             unpack = f'data = _struct(cls.cs.endian, "{fmt}").unpack(buf)\n'
